@@ -59,6 +59,9 @@ package builtin
 //@   bycontract MakeUnion
 //@   ensures[C21] len(typeStr) > 1 && typeStr[0] == '?' ==> result.tType == base.UNION && len(result.variants) == 2 && result.variants[1].tType == old(NilT.tType) && result.variants[1].objectClass == old(NilT.objectClass)
 //@   ensures[C21] len(typeStr) > 1 && typeStr[0] == '*' ==> result.IsBuiltinAsterisk
+//@   # `A|B|C` is one flat union with as many members as the list form ["A","B","C"] has
+//@   ensures[C21] !(len(typeStr) > 1 && (typeStr[0] == '?' || typeStr[0] == '*')) && !(len(typeStr) > 2 && typeStr[0] == '[' && typeStr[len(typeStr)-1] == ']') && strings.Contains(typeStr, "|") ==> result.tType == base.UNION && len(result.variants) == len(strings.Split(typeStr, "|"))
+//@   loop 0 invariant[C21] rangeindex + 1 <= len(parts) && len(types) == rangeindex + 1
 //@   ensures[C21] typeStr == "NilClass" ==> result == valueof(NilT)
 //@   ensures[C21] typeStr == "NilClass" ==> result.tType == old(NilT.tType) && result.objectClass == old(NilT.objectClass)
 //@ func ti/builtin.parseReturnType
